@@ -51,6 +51,7 @@ CHECK_DEADLOCK FALSE
 type momTree struct {
 	prefix []*nom.DetailedMomentum // common prefix every node adopts first (may be empty)
 	unit   int
+	gap    int // slots nobody produces in before every element (more than an election period: forks reach across several)
 	mu     sync.Mutex
 	segs   map[string][]*nom.DetailedMomentum // path -> the unit momentums of its last element
 	dumps  map[string]string                  // path -> frontier dump of a node that only ever saw this path
@@ -104,9 +105,9 @@ func (t *momTree) ensureLocked(path []string) error {
 		return fmt.Errorf("builder submit: %v", err)
 	}
 	from := n.Height() + 1
-	skip := 0
+	skip := t.gap
 	if path[len(path)-1] == "b" {
-		skip = 1 // the "b" variant misses a slot: the branches differ in the consensus statistics, too
+		skip++ // the "b" variant misses a slot: the branches differ in the consensus statistics, too
 	}
 	if err := n.Produce(skip); err != nil {
 		return err
@@ -312,6 +313,7 @@ type syncOpts struct {
 	restart   bool   // the node is stopped and reopened between deliveries (C02: cold caches, across restarts)
 	rival     bool   // before a delivery the node pools a RIVAL of the batch's first user block (same account, same height, other content)
 	local     bool   // before a delivery the node pools a block of an otherwise idle account that acknowledges its current frontier
+	gap       int    // every element of the tree follows a silence of this many slots (see momTree.gap)
 }
 
 // honestRefusal: a lab node refused momentums that other honest lab nodes produced and accepted.
@@ -584,6 +586,7 @@ func syncCheckP(run *core.Run, maxH, unit, maxRollback int, sampleEvery int64, o
 	run.Set("negative_controls", []string{"InsertChain without the nil check (code as found, F6) -> TLC refutes NeverCrashes", "NeverShorter (too strong on purpose) -> refuted by rollback-then-fail, the reading stated in DESIGN C16"})
 
 	tree := newMomTree(unit)
+	tree.gap = o.gap
 	if prefix > 0 {
 		p, err := node.New("prefix", node.Options{Producer: true})
 		if err != nil {
